@@ -189,11 +189,11 @@ func since2015(tm time.Time) uint64 {
 func TestC09NodeOriginated(t *testing.T) {
 	rec := evid.New(t, "C09", "node level: 2..4 links, 1..3 goroutines issuing WriteMessageAll/To/Except, heartbeats every 3 ms and stream requests enabled; each link's byte stream parsed by the reference: per link sequence numbers 0,1,2,... over application messages, heartbeats and stream requests alike, configured system/component id (1 when unset), version, zero compat flags, reference checksum, v1 payload = base size; non-trivial = more than 20 frames checked; distinct by hash of the scenario")
 	rec.Require("wraps-256", "with-heartbeats", "with-stream-requests", "v1", "keyed")
-	evid.Check(t, rec, evid.N(60, 300), func(t *rapid.T) { runOriginated(t, rec, "C09") })
+	evid.Check(t, rec, evid.N(120, 400), func(t *rapid.T) { runOriginated(t, rec, "C09") })
 }
 
 func TestC06NodeSigning(t *testing.T) {
 	rec := evid.New(t, "C06", "node level: every frame a node with an outgoing key puts on a link (application messages, heartbeats, stream requests) carries the signed flag, one constant link id per channel, a timestamp inside the run's wall-clock bracket that never decreases on the link, and a signature that verifies by the SHA-256 formula; non-trivial = more than 20 frames checked; distinct by hash of the scenario")
 	rec.Require("keyed")
-	evid.Check(t, rec, evid.N(40, 200), func(t *rapid.T) { runOriginated(t, rec, "C06") })
+	evid.Check(t, rec, evid.N(80, 300), func(t *rapid.T) { runOriginated(t, rec, "C06") })
 }
